@@ -22,11 +22,11 @@ RULES = {
     "R09.2": "ROUTER send: lookup by popped first frame; write only on hit; miss / bad identity -> Err, no write",
     "R09.3": "identity provenance: handshake -> table key -> queue key (C04 rules re-evaluated)",
     "R09.4": "announced identity = configured option (C01 R01.7 re-evaluated)",
-    "R09.F": "foundation clauses re-evaluated as necessary conditions: " + ", ".join(['decoder']),
+    "R09.F": "foundation clauses re-evaluated as necessary conditions: " + ", ".join(['decoder', 'wakeup']),
 }
 
 
-DEPENDS = ['decoder']     # foundation groups re-evaluated as necessary conditions (rules/found.py)
+DEPENDS = ['decoder', 'wakeup']     # foundation groups re-evaluated as necessary conditions (rules/found.py)
 
 
 def run(ctx, f, rep):
